@@ -36,6 +36,10 @@ add("C07",
     "Coq theorems over the Retry/Catch decision of handle_error (constants and unrecoverable set regenerated from the source, body pinned): unrecoverable errors are never retried or caught; the first matching retrier decides, the k-th retry after IntervalSeconds x BackoffRate^k, at most MaxAttempts (0 = never); then the first matching catcher, else failure; the Error Output is placed by the catcher's ResultPath into the original input (put-get and frame from C12); a whole state visit refines the States Language per-retrier policy whenever one retrier at most is involved (any number of attempts). With several retriers taking turns the shared counter departs from the policy: refuted theorem and known finding F20. ~450 real Task executions per run (delays on the virtual clock) are checked in Coq against the per-retrier specification and against the model.",
     "Trusted: Coq kernel + vm_compute; translator; pin of handle_error; dyadic back-off rates (exact floats); States.TaskFailed-matches-everything is the engine's documented reading; Map/Parallel as the retried state use the same handle_error and are exercised by the engine-group checks.",
     "Coq proof (refinement to per-retrier policy) + executions on the virtual clock checked in Coq", "DESIGN.md section 6 (C07)")
+add("C13",
+    "Coq theorems over a hand-written model of evaluate_payload_template and the intrinsic functions (pinned by digest): literal members are copied verbatim at any depth; a template (and any intrinsic expression) fails only with States.IntrinsicFailure or a path failure; arguments rendered from the grammar - atoms, strings with commas/parentheses/escaped apostrophes, calls nested to any depth - are split back exactly; StringSplit and ArrayPartition satisfy their relational specifications for all inputs. ~1300 programs per run (every function, nested calls, malformed calls, random templates) are evaluated by the real code and compared in Coq with the model and with independent relational checkers (ArrayRange, ArrayUnique, ArrayContains, ArrayGetItem, ArrayLength, MathAdd, JsonMerge, literal-copy/rename of templates); purity and hash-seed independence are checked by re-running in a second process.",
+    "Trusted: Coq kernel + vm_compute; pins of the hand-modelled functions; Hash, UUID, MathRandom, StringToJson, Base64Decode and exotic float notations are outside the model (only their dispatch and error class are exercised); Format and the remaining functions are tied by differential runs, not by a spec theorem.",
+    "Coq proof (induction on templates, scanner invariants) + differential correspondence with Coq-evaluated relational oracles", "DESIGN.md section 6 (C13)")
 DONE = [c["property_id"] for c in checks]
 m = {
  "version": 1,
